@@ -44,9 +44,9 @@ class C16(Prop):
         two = ["natural@str", "1@int"]
         if tier == "quick":
             return [Layer("FST(2,<=2)", un(lambda: GT.fst_cases(2, 0, 2)), rep=rep,
-                          policies=two + ["2@str", "natural@hub", "natural@str+xx", "natural@mixedval"]),
+                          policies=two + ["2@str", "natural@hub", "natural@str+xx", "natural@mixedval", "natural@str+tuple"]),
                     Layer("pairs T1xT1", lambda: (("bin", "T1", i, "T1", j) for i in range(len(pool("T1")))
-                                                  for j in range(len(pool("T1")))), policies=two + ["natural@pre", "2@pre", "natural@mixedval"]),
+                                                  for j in range(len(pool("T1")))), policies=two + ["natural@pre", "2@pre", "natural@mixedval", "natural@str+tuple"]),
                     Layer("to_fst FA(2,2,<=3)", lambda: (("fa", c) for c in GF.fa_cases(2, 2, 0, 3)),
                           rep=lambda c: GF.is_rep(c[1]), policies=two)]
         return [Layer("FST(2,<=2)", un(lambda: GT.fst_cases(2, 0, 2)), rep=None,
